@@ -318,6 +318,8 @@ func runC14Race(c *rt.Ctx) {
 			}
 		}
 	}
+	// the batching pool as L1: all connections share its relay, pooled connections and buffers
+	cfgs = append(cfgs, Cfg{Orca: "l1only", Lock: "none", Proto: "binary", L1H: "batched"}, Cfg{Orca: "l1l2", Lock: "multi", Proto: "text", L1H: "batched"})
 	n := 0
 	for ci, cfg := range cfgs {
 		if !c.Mine(ci) {
@@ -345,6 +347,7 @@ func runC14Race(c *rt.Ctx) {
 				}(ti)
 			}
 			wg.Wait()
+			w.Release()
 			n++
 		}
 	}
